@@ -169,6 +169,26 @@ Qed.
 Theorem feval_prefix n : GoodP (fev n).
 Proof. unfold feval. apply geval_p. exact fcall_p. Qed.
 
+Lemma pcall_p k (ev : @ev_t unit) r f st v f' st' :
+  pcall text re_at upper ic rules ec act lineat k ev r f st = (Ok v f', st') -> PG f f'.
+Proof.
+  unfold pcall. intros E.
+  repeat match type of E with
+         | context [match ?x with _ => _ end] => destruct x; try discriminate
+         end;
+  inversion E; subst; unfold PG; cbn [cst append goto]; apply items_cstadd.
+Qed.
+
+Theorem peval_prefix n e f r f' :
+  peval text re_at isalnum isalpha lower upper ic unsafe rules ec act lineat n e f = Ok r f' ->
+  exists rest, items (cst f') = items (cst f) ++ rest.
+Proof.
+  unfold peval. intros E.
+  destruct (geval text re_at isalnum isalpha lower ic unsafe (fun _ u => u)
+              (pcall text re_at upper ic rules ec act lineat) n e f tt) as [r0 []] eqn:G. cbn [fst] in E. subst r0.
+  eapply (geval_p text re_at isalnum isalpha lower ic unsafe (fun _ u => u) _ pcall_p); exact G.
+Qed.
+
 (* the recursive call finds the seed and hands it on: no body runs, the state is untouched, the position is the seed's end *)
 Lemma call_from_seed n r rl f st seed q p :
   get_rule rules r = Some rl -> r_lrec rl = true -> left_recursion ec = true ->
